@@ -5,7 +5,7 @@ import ast
 from .. import tables
 from ..canon import canon, single_assignments
 from ..pm import src
-from ..q import FA, call_name, guard_facts, is_self_attr, walk_no_nested, const
+from ..q import FA, call_name, guard_facts, is_self_attr, walk_no_nested, const, stored_value, store_target
 from ..pat import find_stmt, find_expr, match_stmt, match_expr
 
 TECHNIQUE = "R-SIB on the parallel core-field tables, R-ORDER on registry co-update, R-WRITERS set equality between lazily cached properties and the invalidation method, def-use on dtype construction and positional pairing, effect rule (no copying primitive) for the unstructured view"
@@ -80,7 +80,7 @@ def run(ctx):
     aa = FA(add)
     ap_p = aa.find_calls("config.livepoints.extra_parameters.append")
     ap_t = aa.find_calls("config.livepoints.extra_parameters_dtype.append")
-    st_d = aa.find(lambda s: isinstance(s, ast.Assign) and src(s.targets[0]) == "config.livepoints.extra_parameters_defaults")
+    st_d = aa.find(lambda s: store_target(s) is not None and src(store_target(s)) == "config.livepoints.extra_parameters_defaults")
     rs = aa.find_calls("config.livepoints.reset_properties")
     ctx.require(len(ap_p) == 1 and len(ap_t) == 1 and len(st_d) == 1 and len(rs) == 1, "add_extra_parameters_to_live_points: expected one update of each of the three tables and one reset_properties call")
     same = _same_block(add.node, [aa.stmt(ap_p[0][0]), aa.stmt(ap_t[0][0]), aa.stmt(st_d[0])])
@@ -89,7 +89,7 @@ def run(ctx):
     lb = match_stmt("for $$p, $$dv in zip(parameters, default_values):\n    $_rest", loops[0].ast) if len(loops) == 1 else None
     ctx.ob("R-SIB", "C18.2", add, "names and default values are paired positionally (zip(parameters, default_values))", lb is not None, "")
     P, DV = (src(lb["p"]), src(lb["dv"])) if lb else ("p", "dv")
-    ctx.ob("R-SIB", "C18.2", add, "the registered default is appended at the same position as the name (tuple + (dv,))", canon(aa.stmt(st_d[0]).value) == f"config.livepoints.extra_parameters_defaults + ({DV},)" and src(ap_p[0][1].args[0]) == P and canon(ap_t[0][1].args[0]) == "config.livepoints.default_float_dtype", f"`{src(aa.stmt(st_d[0]))[:100]}`")
+    ctx.ob("R-SIB", "C18.2", add, "the registered default is appended at the same position as the name (tuple + (dv,))", canon(stored_value(aa.stmt(st_d[0]))) == f"config.livepoints.extra_parameters_defaults + ({DV},)" and src(ap_p[0][1].args[0]) == P and canon(ap_t[0][1].args[0]) == "config.livepoints.default_float_dtype", f"`{src(aa.stmt(st_d[0]))[:100]}`")
     facts = [(canon(e), t) for e, t in guard_facts(aa, ap_p[0][0])]
     ctx.ob("R-DOM", "C18.2", add, "a field is registered at most once (guard: not already registered)", (f"{P} not in config.livepoints.extra_parameters", True) in facts or (f"{P} in config.livepoints.extra_parameters", False) in facts, f"{facts}")
     ctx.ob("R-ORDER", "C18.2", add, "every path that may change the registry ends by invalidating the caches (reset_properties after the loop, on every path)", aa.on_every_normal_path(rs[0][0]) and all(aa.cfg.can_follow(x, rs[0][0]) for x in (ap_p[0][0], ap_t[0][0], st_d[0])) and not aa.cfg.in_loop(rs[0][0]), "")
@@ -179,6 +179,12 @@ def run(ctx):
     mv = ctx.fn(tables.MODEL + ".unstructured_view")
     rr = [n for n in walk_no_nested(mv.node) if isinstance(n, ast.Return)]
     ctx.ob("R-SIB", "C18.5", mv, "Model.unstructured_view windows exactly the model's parameters (dtype computed from self.names)", len(rr) == 1 and canon(rr[0].value) == "unstructured_view(x, dtype=self._view_dtype)" and len([1 for n_, b_ in find_stmt("self._dtype = $v", prog.cls(tables.MODEL).methods["_view_dtype"].node) if match_expr("_unstructured_view_dtype(empty_structured_array(0, self.names), self.names)", b_["v"], inline=single_assignments(prog.cls(tables.MODEL).methods["_view_dtype"].node)) is not None]) == 1, "")
+    # positional views of caller-supplied arrays are only combined with scalars (their columns follow the caller's memory order)
+    from ..rules import fieldorder as _fo2
+    _pv = _fo2.positional_view_uses(prog)
+    ctx.require(len(_pv) >= 4, f"only {len(_pv)} uses of a positional view found (in_unit_hypercube / log_prior_unit_hypercube expected)")
+    for _f, _n, _ok, _why in _pv:
+        ctx.ob("R-FIELDS", "C18.5", _f, "a positional (memory-order) view of a structured array is combined only with scalars, never with a per-parameter array", _ok, _why, node=_n)
     ctx.floor("C18.5", 6)
     ctx.assumptions += ["numpy structured-array semantics (field assignment by name, np.ndarray(buffer=...) shares memory); value round-trips for arbitrary names/shapes and pandas behaviour are not decided"]
 
